@@ -566,9 +566,13 @@ impl Model {
             F::StateEntryResize => {
                 cost += k::RESIZE_ENTRY_BASE_COST as u128;
                 let new = a32(1) as usize;
+                // a handle that was handed out (even if its entry has been deleted since) with a
+                // size above the limit reports "too large"; the liveness of the entry is looked
+                // at afterwards
+                let handed_out = a[0] >> 32 == 0 && ((a[0] & 0xffff_ffff) as usize) < self.handles.len();
                 ret = Some(match self.handle(a[0]) {
+                    _ if handed_out && new > k::MAX_ENTRY_SIZE => 0,
                     None => INVALID as u64,
-                    Some(_) if new > k::MAX_ENTRY_SIZE => 0,
                     Some(key) => {
                         let v = &mut self.map.get_mut(&key).unwrap().val;
                         if new > v.len() {
